@@ -72,6 +72,24 @@ func (a *simAccepter) Accept(ctx context.Context) (channel.Channel, error) {
 	return c.sEnd, nil
 }
 
+// observedAccepter records what the Accepter given to Loop returns.
+type observedAccepter struct {
+	w     *loopWorld
+	inner server.Accepter
+}
+
+func (o *observedAccepter) Accept(ctx context.Context) (channel.Channel, error) {
+	ch, err := o.inner.Accept(ctx)
+	if err != nil {
+		o.w.acceptErr, o.w.acceptErrSeq = err, o.w.seq()
+		o.w.r.Ev("accept.err", "netaccepter", 0, 0, err.Error())
+		return nil, err
+	}
+	o.w.accepted++
+	o.w.r.Ev("accept", "netaccepter", o.w.accepted, 0, "")
+	return ch, nil
+}
+
 type fakeAddr struct{}
 
 func (fakeAddr) Network() string { return "sim" }
@@ -100,8 +118,7 @@ func (l *fakeListener) Accept() (net.Conn, error) {
 	c := l.queue[0]
 	l.queue = l.queue[1:]
 	c.Accepted = true
-	l.w.accepted++
-	l.w.r.Ev("accept", fmt.Sprint("conn", c.Idx), 0, 0, "")
+	l.w.r.Ev("listener.accept", fmt.Sprint("conn", c.Idx), 0, 0, "")
 	return c.fc, nil
 }
 func (l *fakeListener) Close() error   { rt.Yield("listener:close"); l.closed = true; l.NClose++; return nil }
@@ -380,7 +397,10 @@ func scenarioC20(r *Run) {
 	var acc server.Accepter
 	if w.netPop {
 		w.lst = &fakeListener{w: w}
-		acc = server.NetAccepter(w.lst, channel.Line)
+		// what Loop is handed is the NetAccepter: connections and failures are
+		// counted at that interface (a connection that NetAccepter itself closes
+		// after the context has ended never reaches Loop)
+		acc = &observedAccepter{w: w, inner: server.NetAccepter(w.lst, channel.Line)}
 	} else {
 		w.acc = &simAccepter{w: w, ctxErrClosed: ctxErrClosed}
 		acc = w.acc
@@ -494,8 +514,20 @@ func (w *loopWorld) check(failErr error, ctxErrClosed bool) {
 		r.Fail("loop-never-returned", "the context has ended, every client has closed and every handler was released, yet Loop has not returned; goroutines: %v", names)
 		return
 	}
-	if len(w.svcs) != w.accepted {
-		r.Fail("finish-count", "%d connections were accepted but newService was called %d times", w.accepted, len(w.svcs))
+	// one service per accepted connection: services whose Assigner was asked are
+	// the ones given a connection (a service made in advance for a connection
+	// that never came has no server, and must not be finished either)
+	nused := 0
+	for _, s := range w.svcs {
+		if s.NAssigner > 0 {
+			nused++
+		} else if len(s.Finishes) != 0 {
+			r.Fail("finish-count", "service %d was never asked for its Assigner (it got no connection), yet Finish was called", s.Idx)
+			return
+		}
+	}
+	if nused != w.accepted {
+		r.Fail("finish-count", "%d connections were accepted but %d services (of %d made by newService) were given one", w.accepted, nused, len(w.svcs))
 		return
 	}
 	nerr, nclosedStatus := 0, 0
@@ -512,6 +544,9 @@ func (w *loopWorld) check(failErr error, ctxErrClosed bool) {
 		return fi < fj
 	})
 	for _, s := range svcs {
+		if s.NAssigner == 0 {
+			continue
+		}
 		if s.NAssigner != 1 {
 			r.Fail("finish-count", "service %d: Assigner called %d times", s.Idx, s.NAssigner)
 			return
@@ -653,7 +688,7 @@ func (w *loopWorld) check(failErr error, ctxErrClosed bool) {
 	// here with the standard library's own test, not with the library's helper.
 	closedListener := func(err error) bool { return err != nil && errors.Is(err, net.ErrClosed) }
 	switch {
-	case failErr != nil && w.acceptErr == failErr:
+	case failErr != nil && errors.Is(w.acceptErr, failErr):
 		if !errors.Is(w.loopErr, failErr) {
 			r.Fail("loop-wrong-result", "the accepter failed with %q, Loop returned %v", failErr, w.loopErr)
 			return
